@@ -125,7 +125,11 @@ var units = map[string]int{"H": 0, "pS": 4, "nS": 5, "uS": 6, "mS": 7, "SC": 8, 
 // text splits the printed forms lexically (no arithmetic happens here).
 func text(c *vlib.Ctx, a types.Currency) map[string]any {
 	e := map[string]any{"ev": "text", "a": L(a)}
-	bad := func(what, s string) { c.Infra("cannot lex %s form %q of %v", what, s, a.Big()) }
+	// a printed form outside the grammar of the specification (digits; digits[.digits] unit) is behaviour of the real
+	// code, not a problem of the harness
+	bad := func(what, s string) {
+		c.Violation("text-form-outside-the-printed-grammar/"+what, fmt.Sprintf("the %s form of %v is %q, which is not in the grammar of the specification", what, a.Big(), s), map[string]any{"value": a.Big().String(), "form": what, "text": s})
+	}
 	ex := a.ExactString()
 	d, ok := digits(ex)
 	if !ok {
